@@ -43,6 +43,8 @@ func c06Alphabet(thorough bool) []rv.V {
 		rv.S("0x1"), rv.S("true"), rv.S("TRUE"), rv.S(" t "), rv.S("f"), rv.S("false"), rv.S("abc"), rv.S("ABC"), rv.S(" abc"), rv.S("b"),
 		rv.S(""), rv.S(" "), rv.S("2012-01-01"), rv.S("2012-01-01 00:00:00"), rv.S("2012-1-1"), rv.S("2012-01-02"),
 		rv.S("NaN"), rv.S("Inf"), rv.S("-Inf"), rv.S("9223372036854775807"), rv.S("9223372036854775808"), rv.S("1e400"),
+		// integer texts of 20 and more characters: sign, padding zeros, surrounding spaces
+		rv.S("-9223372036854775808"), rv.S("-9223372036854775807"), rv.S("+9223372036854775807"), rv.S("0000000000000000000005"), rv.S("  9223372036854775806  "),
 		rv.B(true), rv.B(false),
 		rv.Tv(rv.T), rv.Tv(rv.F), rv.Tv(rv.U),
 		rv.D(d1), rv.D(d2),
@@ -50,7 +52,7 @@ func c06Alphabet(thorough bool) []rv.V {
 	if thorough {
 		vs = append(vs, rv.I(7), rv.I(-7), rv.Fl(7), rv.Fl(-7), rv.Fl(2.5), rv.Fl(-0.5), rv.S("-7"), rv.S("7.0"), rv.S(" 2012-01-01 "),
 			rv.S("2012/01/01"), rv.S("1."), rv.S(".5"), rv.S("1E2"), rv.S("-0"), rv.S("tRuE"), rv.S("True"), rv.S("T"), rv.S("é"), rv.S("É"),
-			rv.S("-9223372036854775808"), rv.S("-9223372036854775809"), rv.I(-2), rv.I(4))
+			rv.S("-9223372036854775809"), rv.I(-2), rv.I(4))
 	}
 	return vs
 }
